@@ -256,7 +256,7 @@ const phasesRule = "bundles of W from the bundle generator x {Minimal, full, Exp
 // phasesStreamRun is the stream `phases` (custom runner because of the need/answer rounds).
 func phasesStreamRun(ctx *Ctx) StreamResult {
 	res := StreamResult{Name: "phases", Rule: phasesRule, Features: map[string]int{}, Extra: map[string]any{}}
-	n := ctx.N(80)
+	n := ctx.N(240)
 	var cases []*Case
 	for i := 0; i < n; i++ {
 		g := NewGen(ctx.Seed, 11<<32|uint64(i))
@@ -296,6 +296,7 @@ func shrinkAndDedupeFindings(fs []Finding) []Finding {
 // phasesDecide runs the model on every modelled step of every case (with need/answer rounds) and compares.
 func phasesDecide(cases []*Case) ([]Finding, map[string]int) {
 	stats := map[string]int{}
+	var stale []Finding
 	var pcs []*phasesCase
 	for _, c := range cases {
 		r := get(c.Impl, "ok")
@@ -330,6 +331,12 @@ func phasesDecide(cases []*Case) ([]Finding, map[string]int) {
 				stats["steps:skipped-stale-index"]++
 				continue
 			}
+			if ok, _ := get(phs[i], "inSync").(bool); !ok && get(phs[i], "doc") != nil {
+				// every modelled phase ends with a re-analysis (C10.pipeline_in_sync): the implementation must be in sync there too
+				stale = append(stale, Finding{Kind: "correspondence", Stream: "phases", Case: c,
+					Detail:    fmt.Sprintf("at the end of phase %s the analyzer handed to Flatten does not answer like a fresh analysis of the document (the model re-analyzes at the end of every phase)", name),
+					Signature: "phases:" + name + ":stale-index"})
+			}
 			if get(phs[i-1], "doc") == nil || get(phs[i], "doc") == nil {
 				continue
 			}
@@ -360,7 +367,7 @@ func phasesDecide(cases []*Case) ([]Finding, map[string]int) {
 			pcs = append(pcs, pc)
 		}
 	}
-	var fs []Finding
+	fs := append([]Finding{}, stale...)
 	pending := pcs
 	for round := 0; round < 400 && len(pending) > 0; round++ {
 		var dcs []*Case
